@@ -26,6 +26,7 @@ class Gen:
         self.sem = G.SpecSemantics(params=params)
         self.max_nodes = max_nodes
         self.labels = set()
+        self.has_local_out = False
         self.depth = 0
         for i in range(len(params)):
             self.add({'k': 'p', 'i': i})
@@ -273,7 +274,11 @@ class Gen:
     def sink(self):
         cls = self.draw(st.sampled_from(
             ['Out', 'Out', 'Out', 'ReplaceOut', 'OffsetOut', 'XOut',
-             'SendTrig', 'Free']))
+             'SendTrig', 'Free', 'LocalOut']))
+        if cls == 'LocalOut':
+            if self.has_local_out:
+                cls = 'Out'
+            self.has_local_out = True
         ent = G.SINKS[cls]
         r = self.draw(st.sampled_from(ent['rates']))
         long = G.RATE_LONG[r]
